@@ -143,7 +143,8 @@ struct LoopWorld
         w.goals.clear();
         for (int i = 0; i < K0; ++i)
         {
-            double th = 0.3 + 2 * (double)PIL * i / K0, r = can[i] ? 2.0 : 6.0;
+            // directions 0.7 rad apart: the PHSs overlap pairwise and all together, also far from the start
+            double th = 0.3 + 0.7 * i, r = can[i] ? 2.0 : 6.0;
             Pose g;
             g.p = {r * std::cos(th), r * std::sin(th)};
             w.goals.push_back(g);
@@ -441,6 +442,8 @@ static int modeReplay(const std::string &rowsPath, const std::string &tracePath,
                 continue;
             }
             auto it = lw.reps.find({lw.rejection ? 0 : k, cls});
+            if ((it == lw.reps.end() || it->second.empty()) && ov == "max" && cls < 2)
+                it = lw.reps.find({lw.rejection ? 0 : k, 1 - cls});   // without a lower bound these are one class
             if (it == lw.reps.end() || it->second.empty())
             {
                 scriptOk = false;
